@@ -359,6 +359,127 @@ func c19RandomNew(t *rapid.T, ev *evProp) {
 	ev.Case(nr > 1 || full < nr, desc, "random.New", fmt.Sprintf("readers:%d", nr))
 }
 
+// schedReader: an entropy source whose behaviour is scheduled per CALL of the stream (the harness
+// advances `call` before every XORKeyStream): it delivers that call's bytes and then reports EOF
+// (so a call with fewer than 32 bytes is a short read, one with none a bare EOF), or fails.
+// Sources come and go in practice: a device that is not ready yet, a pipe that is refilled.
+type schedReader struct {
+	call  *int
+	plan  [][]byte // per call: bytes delivered; nil = error
+	pos   int
+	pcall int
+}
+
+func (r *schedReader) Read(p []byte) (int, error) {
+	if r.pcall != *r.call {
+		r.pcall, r.pos = *r.call, 0
+	}
+	d := r.plan[*r.call]
+	if d == nil {
+		return 0, errors.New("entropy source failed")
+	}
+	if r.pos >= len(d) {
+		return 0, io.EOF
+	}
+	n := copy(p, d[r.pos:])
+	r.pos += n
+	return n, nil
+}
+
+// c19RandomNewReuse: ONE stream value is used for 2..4 calls while its readers change behaviour
+// from call to call.  Per call: no panic when at least one reader delivers 32 bytes; two streams
+// with the same schedules agree call by call; flipping one byte consumed in call j of any reader
+// changes the output of call j.
+func c19RandomNewReuse(t *rapid.T, ev *evProp) {
+	nr := rapid.IntRange(1, 4).Draw(t, "readers")
+	calls := rapid.IntRange(2, 4).Draw(t, "calls")
+	plans := make([][][]byte, nr)
+	var shape []string
+	for i := range plans {
+		plans[i] = make([][]byte, calls)
+		var sh []string
+		for j := 0; j < calls; j++ {
+			kind := rapid.SampledFrom([]string{"full", "full", "short", "empty", "empty", "failing"}).Draw(t, fmt.Sprintf("kind%d.%d", i, j))
+			switch kind {
+			case "full":
+				plans[i][j] = rapid.SliceOfN(rapid.Byte(), 32, 40).Draw(t, "d")
+			case "short":
+				plans[i][j] = rapid.SliceOfN(rapid.Byte(), 1, 31).Draw(t, "d")
+			case "empty":
+				plans[i][j] = []byte{}
+			}
+			sh = append(sh, kind)
+		}
+		shape = append(shape, strings.Join(sh, ","))
+	}
+	// every call has a working reader (all failing is the documented panic)
+	for j := 0; j < calls; j++ {
+		ok := false
+		for i := range plans {
+			ok = ok || len(plans[i][j]) >= 32
+		}
+		if !ok {
+			plans[rapid.IntRange(0, nr-1).Draw(t, "rescue")][j] = rapid.SliceOfN(rapid.Byte(), 32, 33).Draw(t, "rd")
+		}
+	}
+	n := rapid.IntRange(8, 64).Draw(t, "outlen")
+	desc := fmt.Sprintf("random.New reused for %d calls, readers per call %v, out=%d", calls, shape, n)
+	run := func(pl [][][]byte) ([][]byte, string) {
+		call := 0
+		var rs []io.Reader
+		for i := range pl {
+			rs = append(rs, &schedReader{call: &call, plan: pl[i], pcall: -1})
+		}
+		st := random.New(rs...)
+		outs := make([][]byte, calls)
+		for call = 0; call < calls; call++ {
+			dst := make([]byte, n)
+			if pn := safelyCT(func() { st.XORKeyStream(dst, make([]byte, n)) }); pn != "" {
+				return outs, fmt.Sprintf("call %d: %s", call, pn)
+			}
+			outs[call] = dst
+		}
+		return outs, ""
+	}
+	o1, pn := run(plans)
+	if pn != "" {
+		violationOrKnown(t, ev, "C19/random.New/reuse-works", "a stream with a working reader in every call panicked (%s)\n%s", pn, desc)
+		return
+	}
+	o2, _ := run(plans)
+	for j := range o1 {
+		if !bytes.Equal(o1[j], o2[j]) {
+			violationOrKnown(t, ev, "C19/random.New/reuse-deterministic", "call %d: same reader schedules, different output\n%s", j, desc)
+		}
+	}
+	// one consumed byte of one reader in one call
+	var cands [][3]int
+	for i := range plans {
+		for j := range plans[i] {
+			for k := 0; k < len(plans[i][j]) && k < 32; k++ {
+				cands = append(cands, [3]int{i, j, k})
+			}
+		}
+	}
+	c := cands[rapid.IntRange(0, len(cands)-1).Draw(t, "flip")]
+	mod := make([][][]byte, nr)
+	for i := range plans {
+		mod[i] = append([][]byte(nil), plans[i]...)
+	}
+	d := append([]byte(nil), mod[c[0]][c[1]]...)
+	d[c[2]] ^= 1 << uint(rapid.IntRange(0, 7).Draw(t, "bit"))
+	mod[c[0]][c[1]] = d
+	o3, pn := run(mod)
+	if pn != "" {
+		violationOrKnown(t, ev, "C19/random.New/reuse-works", "panic after flipping one delivered bit (%s)\n%s", pn, desc)
+		return
+	}
+	if bytes.Equal(o3[c[1]], o1[c[1]]) {
+		violationOrKnown(t, ev, "C19/random.New/reuse-depends-on-every-reader", "flipping byte %d that reader %d delivers in call %d did not change that call's output\n%s", c[2], c[0], c[1], desc)
+	}
+	ev.Case(true, desc, "random.New-reuse", fmt.Sprintf("calls:%d", calls))
+}
+
 func safelyCT(f func()) (panicked string) {
 	defer func() {
 		if p := recover(); p != nil {
@@ -508,7 +629,11 @@ func TestC19_Random(t *testing.T) {
 	ev := evFor("C19")
 	rcheck(t, 3000, 1200000, func(t *rapid.T) {
 		if rapid.IntRange(0, 2).Draw(t, "family") == 0 {
-			c19RandomNew(t, ev)
+			if rapid.Bool().Draw(t, "reuse") {
+				c19RandomNewReuse(t, ev)
+			} else {
+				c19RandomNew(t, ev)
+			}
 		} else {
 			c19BitsInt(t, ev)
 		}
